@@ -4,7 +4,7 @@ clones) is explored exhaustively per operation family and by seeded simulation; 
 read must return is replayed on memory.Type's exported API.  Program level: wide frames x suspended generators x
 stack-growing prefixes x recursion depth, judged by CalcSem."""
 import json, subprocess
-import vlib, props, semcheck, findings
+import vlib, props, semcheck, findings, vmcheck
 
 
 def replay(hists):
@@ -109,7 +109,11 @@ def run(tier, replay_path=None):
                                                                                  " ".join("%s:%s:%s" % (o["op"], o["a"], o["b"]) for o in m["mismatch"]["h"])[:500]), m)
     # program level
     fams = props.c18_families(tier, seed)
-    semcheck.run_families(ck, fams, props.c18_nontrivial, maxsteps=900000)
+    vs = semcheck.run_families(ck, fams, props.c18_nontrivial, maxsteps=900000)
+    sl = [v.session for v in vs if v.status == "accept" and "width" in v.session.get("meta", {})]
+    n, agree, viol = vmcheck.validate(ck, sl[:60 if tier == "quick" else 400], "CalcVM: real instruction traces of wide-frame programs followed on frame objects", maxsteps=200000)
+    for desc, case, kind in viol:
+        ck.violation(desc, case)
     ck.cov["rule"] = ("Memory.tla histories: all legal operation sequences up to the bound per family (stack+frames+globals / frames+closures / frames+closures+clone+recycle / all), widths {1,130} "
                       "and burst 129 around the 128-slot allocation unit, plus seeded simulation of 24-operation histories over widths {1,2,127,128,130} and bursts {3,127,129,300}; "
                       "non-trivial = a read or pop after a growth, clone or recycle event with at least one frame pushed.  Programs: frame widths 1..260 x 0-3 suspended generators x "
